@@ -29,10 +29,16 @@ def gen_case(rng):
     # junk lines: (kind, payload) placed after item index i
     junk = []
     for _ in range(rng.randint(0, 6)):
-        kind = rng.choice(['blank', 'tab', 'ctrl', 'ctrl', 'ctrl', 'nel', 'ls', 'ps', 'badbytes', 'badhex', 'hexctrl'])
+        kind = rng.choice(['blank', 'tab', 'ctrl', 'ctrl', 'ctrl', 'nel', 'ls', 'ps', 'badbytes', 'badhex', 'hexctrl', 'nocount', 'nocount'])
         ctrl = rng.choice(JUNK_CTRL)
         if kind == 'hexctrl' and rng.random() < 0.4:
             ctrl = rng.choice('\n\r')          # only a $HEX[] line can carry a line feed / carriage return inside (or at the end of) a password
+        if kind == 'nocount' and rng.random() < 0.5:
+            junk.append([0, kind, ctrl, rng.choice(['', '# counts from uniq -c', 'password', 'x 3', 'total 42 lines'])])      # before the first password of the file
+            continue
+        if kind == 'nocount':
+            junk.append([rnd_pos(rng, len(items)), kind, ctrl, rng.choice(['', '# header', 'password', 'x 3'])])
+            continue
         junk.append([rnd_pos(rng, len(items)), kind, ctrl, rng.choice(['ab%scd', '%stail', 'head%s', 'a%sb%sc', 'head%s', '%s'])])
     case = {'items': [[p, k] for p, k in items], 'junk': junk, 'encoding': enc, 'eol': rng.choice(['\n', '\n', '\r\n']),
             'coverage': rng.choice([0.6, 1.0, 0.3]), 'ngram': rng.choice([2, 3, 4]), 'alphabet': 100, 'max_len': 21, 'hseed': rng.getrandbits(32)}
@@ -53,7 +59,7 @@ def rnd_pos(rng, n):
 
 def junk_bytes(j, enc):
     pos, kind, ctrl, pat = j
-    if kind == 'blank':
+    if kind in ('blank', 'nocount'):
         return b''
     if kind == 'tab':
         return 'ab\tcd'.encode(enc)
@@ -90,6 +96,11 @@ def render(case, mode, rng):
     for i, (pw, k) in enumerate(case['items'] + [[None, 0]]):
         for j in junk_at.get(i, []):
             jb = junk_bytes(j, enc)
+            if j[1] == 'nocount':
+                # a line without a count in a count-prefixed list (a header, a stray plain line, nothing at all): skipped; in the plain renderings its place
+                # is taken by a blank line, which is skipped as well
+                lines.append(j[3].encode(enc) if prefix else b'')
+                continue
             lines.append((rng.choice([b'1 ', b'  1 ', b'2 ']) if False else b'1 ') + jb if prefix else jb)
         if pw is None:
             break
